@@ -15,7 +15,7 @@ PROP = dict(
          "comment characters, span deletion (one in four applied twice); plus 45 deep-nesting texts (50/100/200 levels of "
          "parentheses, brackets, blocks, ifs, lambdas, matches, unary operators, type arguments, tuple patterns, calls, member "
          "chains, unclosed openers, stray closers) and 21 long texts (100/500-term operator chains, 500 functions, 20 kB "
-         "identifier and non-ASCII string, 50 kB comment, 400-digit numbers, unterminated string and comment); plus the INFINITE-TYPE family (self-referential definitions through tuple, array, option, result, struct, lambda, call argument, nested combinations, if/match branches, destructuring; recursive, self-valued, mutually recursive and lambda forms, ~290 texts) and the TYPE-ARGUMENT ARITY family (array, option, result, channel, generic struct / enum with 0, <>, too few, exact, too many arguments in let / parameter / return / field / variant / lambda-parameter positions, type declared above and below its use, each against a literal of the type, plus the prefix ending at the annotation, ~1180 texts); the ILL-FORMED DECLARATION family (duplicate parameter / field / variant / type-parameter / method names in functions, lambdas, structs, enums, interfaces, implementations and extensions, crossed with default values, named arguments, `.Variant` shorthand, patterns and calls with too few / too many / duplicate / unknown named arguments, ~550 texts), the DIVERGING-EXPRESSION family (return / break / continue / blocks ending in them / panic / a never-returning call in 44 expression positions: match scrutinee against every pattern kind, if and while conditions, operands, call arguments and callee, index, array / tuple / struct / variant components, let and assignment right-hand sides, for iterable, unwrap, try, member access, lambda body, return operand, block tail, task body, default values; inside a function, as its tail, and at top level, ~1480 texts) and the LITERAL-EDGE family (every prefix at every char boundary of 8 literal-heavy texts, 22 degenerate quote / escape spellings in three contexts, ~500 texts); the DEFAULT-VALUE family (16 binding constructs — let, tuple let, match with bindings, for, lambdas, nested call relying on its own default, reference to an earlier parameter, if/while/nested blocks — as default value of function, untyped-function, lambda and method parameters, struct and variant fields and interface implementations, the default omitted / supplied / named at call sites at top level, in functions, lambdas and tasks, ~740 texts); the DEFAULT-CONTEXT family (26 expression forms that consult the checker's context stacks — `?` on option / result / unknown / non-Try operands, alone, nested, inside arithmetic, blocks, lambdas, calls, match and if; `!`; return / break / continue and blocks, matches, ifs ending in them; a loop with break; panic; a task — as (part of) a default value of typed / untyped functions, functions returning option, lambdas, extension methods, impl methods in and not in the interface, struct and variant fields, the host at top level and, for lambdas, nested in a function, loop, lambda and task, with and without a call that omits the default, ~960 texts); the EDITING-STATE families: balanced skeletons (the text cut at token boundaries with every open bracket and quote closed again in order, as an auto-closing editor holds it; quick every 7th / 11th boundary, thorough every boundary), one identifier occurrence at a time truncated to a proper prefix (always to its first letter for capitalised names, which turns a type name into a TYPE VARIABLE; thorough: every prefix length of every occurrence), top-level items swapped / duplicated / moved / reversed, and `implement` / `extend` headers over {type variables T and C, unknown name, int, string, array<int>, array<T>, option<int>, function type, tuple, wildcard, user struct, instantiated and open generic struct, over-applied struct} x the eleven prelude interfaces with empty / partial / full bodies x uses that reach them (for, `?`, `!`, ==, <, +, .., println, indexing), ~830 texts, the NAMESPACE family (two files; every declaration kind of a library — function with default, struct, generic struct, enum and variants, interface, implementation, extension methods — reached through `use lib1 as u` in call, constructor, qualifier, pattern, type-annotation, extension-target and first-class-value position, under five import headers, ~220 texts) and the ASSIGNMENT family (the six assignment operators on 26 target kinds: mutable / immutable variable, fields, nested fields, array index, nested index, field of index, index of field, user Index type plain / nested / in a field, call results, literals, tuple, string index, unknown name; int / float / string / self right-hand sides; at top level, in functions, lambdas and loops, ~540 texts); the 51 witness programs of the coverage analysis (embedded in harness/src/fewitness.rs: attributes and their combinations, extend / implement for non-types, type variables, wildcards, function types and instantiated nominals, unknown interface constraints, interface methods without Self, incomplete Iterable implementations, `()` patterns, shebang …) as corpus programs, 11 of them also checked against their known diagnostic; a 17000-local frame (D90, thorough tier only: minutes per analysis on a debug build); the entry points on degenerate arguments (missing main file, rendering with to_string_ansi, D94 main file named prelude.abra through a provider of its own). Per text, in a "
+         "identifier and non-ASCII string, 50 kB comment, 400-digit numbers, unterminated string and comment); plus the INFINITE-TYPE family (self-referential definitions through tuple, array, option, result, struct, lambda, call argument, nested combinations, if/match branches, destructuring; recursive, self-valued, mutually recursive and lambda forms, ~290 texts) and the TYPE-ARGUMENT ARITY family (array, option, result, channel, generic struct / enum with 0, <>, too few, exact, too many arguments in let / parameter / return / field / variant / lambda-parameter positions, type declared above and below its use, each against a literal of the type, plus the prefix ending at the annotation, ~1180 texts); the ILL-FORMED DECLARATION family (duplicate parameter / field / variant / type-parameter / method names in functions, lambdas, structs, enums, interfaces, implementations and extensions, crossed with default values, named arguments, `.Variant` shorthand, patterns and calls with too few / too many / duplicate / unknown named arguments, ~550 texts), the DIVERGING-EXPRESSION family (return / break / continue / blocks ending in them / panic / a never-returning call in 44 expression positions: match scrutinee against every pattern kind, if and while conditions, operands, call arguments and callee, index, array / tuple / struct / variant components, let and assignment right-hand sides, for iterable, unwrap, try, member access, lambda body, return operand, block tail, task body, default values; inside a function, as its tail, and at top level, ~1480 texts) and the LITERAL-EDGE family (every prefix at every char boundary of 8 literal-heavy texts, 22 degenerate quote / escape spellings in three contexts, ~500 texts); the DEFAULT-VALUE family (16 binding constructs — let, tuple let, match with bindings, for, lambdas, nested call relying on its own default, reference to an earlier parameter, if/while/nested blocks — as default value of function, untyped-function, lambda and method parameters, struct and variant fields and interface implementations, the default omitted / supplied / named at call sites at top level, in functions, lambdas and tasks, ~740 texts); the DEFAULT-CONTEXT family (26 expression forms that consult the checker's context stacks — `?` on option / result / unknown / non-Try operands, alone, nested, inside arithmetic, blocks, lambdas, calls, match and if; `!`; return / break / continue and blocks, matches, ifs ending in them; a loop with break; panic; a task — as (part of) a default value of typed / untyped functions, functions returning option, lambdas, extension methods, impl methods in and not in the interface, struct and variant fields, the host at top level and, for lambdas, nested in a function, loop, lambda and task, with and without a call that omits the default, ~960 texts); the EDITING-STATE families: balanced skeletons (the text cut at token boundaries with every open bracket and quote closed again in order, as an auto-closing editor holds it; quick every 13th / 11th boundary, thorough every boundary), one identifier occurrence at a time truncated to a proper prefix (always to its first letter for capitalised names, which turns a type name into a TYPE VARIABLE; thorough: every prefix length of every occurrence), top-level items swapped / duplicated / moved / reversed, and `implement` / `extend` headers over {type variables T and C, unknown name, int, string, array<int>, array<T>, option<int>, function type, tuple, wildcard, user struct, instantiated and open generic struct, over-applied struct} x the eleven prelude interfaces with empty / partial / full bodies x uses that reach them (for, `?`, `!`, ==, <, +, .., println, indexing), ~830 texts, the NAMESPACE family (two files; every declaration kind of a library — function with default, struct, generic struct, enum and variants, interface, implementation, extension methods — reached through `use lib1 as u` in call, constructor, qualifier, pattern, type-annotation, extension-target and first-class-value position, under five import headers, ~220 texts) and the ASSIGNMENT family (the six assignment operators on 26 target kinds: mutable / immutable variable, fields, nested fields, array index, nested index, field of index, index of field, user Index type plain / nested / in a field, call results, literals, tuple, string index, unknown name; int / float / string / self right-hand sides; at top level, in functions, lambdas and loops, ~540 texts); the 51 witness programs of the coverage analysis (embedded in harness/src/fewitness.rs: attributes and their combinations, extend / implement for non-types, type variables, wildcards, function types and instantiated nominals, unknown interface constraints, interface methods without Self, incomplete Iterable implementations, `()` patterns, shebang …) as corpus programs, 11 of them also checked against their known diagnostic; a 17000-local frame (D90, thorough tier only: minutes per analysis on a debug build); the entry points on degenerate arguments (missing main file, rendering with to_string_ansi, D94 main file named prelude.abra through a provider of its own). Per text, in a "
          "child process: check, compile_bytecode, check_lsp+errors() each under catch_unwind (panic, abort, or no answer after 300 s of own CPU time when re-run alone = "
          "failing input, one per panic site, shrunk to the shortest failing prefix), accept/reject agreement of the three entry "
          "points, and one model case: verif_lex (tokens with byte spans, lexer diagnostics) = Lean tokenizeBytes. "
